@@ -250,6 +250,9 @@ func RunVM(req *sb.Request, mods map[string]ast.AnalyzedProgram) (res sb.RunResu
 		fill()
 		return res
 	}
+	if req.Annotations {
+		res.Annotations = evalAnnotations(&vm, compiled)
+	}
 	pctx.Arm(req.CancelAt, req.PollCap)
 	if !req.SkipMain {
 		core := vm.SpawnAsync(hsruntime.MainFn(), nil, nil, nil)
@@ -280,6 +283,48 @@ func RunVM(req *sb.Request, mods map[string]ast.AnalyzedProgram) (res sb.RunResu
 	res.LateWrites = rec.Late
 	rec.mu.Unlock()
 	return res
+}
+
+// evalAnnotations does what the repository's own driver (cmd/testing_run.go) does with the compiled
+// annotations: every trigger annotation's hidden argument function is invoked and its result
+// rendered; the list is sorted so that map order does not show.
+func evalAnnotations(vm *hsruntime.VM, compiled compiler.CompileOutput) []string {
+	out := []string{}
+	for fn, ann := range compiled.Annotations {
+		for idx, item := range ann.Items {
+			head := fmt.Sprintf("%s.%s#%d: ", fn.Module, fn.UnmangledFunction, idx)
+			switch it := item.(type) {
+			case compiler.IdentCompiledAnnotation:
+				out = append(out, head+"ident "+it.Ident)
+			case compiler.TriggerCompiledAnnotation:
+				r := func() (s string) {
+					defer func() {
+						if p := recover(); p != nil {
+							s = "refused: " + firstLine(fmt.Sprint(p))
+						}
+					}()
+					res := vm.SpawnSync(hsruntime.FunctionInvocation{Function: it.ArgumentFunctionIdent, LiteralName: true, Args: []vv.Value{},
+						FunctionSignature: hsruntime.FunctionInvocationSignature{Params: []hsruntime.FunctionInvocationSignatureParam{},
+							ReturnType: ast.NewListType(ast.NewAnyType(herrors.Span{}), herrors.Span{})}}, nil, nil)
+					if res.Exception != nil {
+						i := res.Exception.Interrupt
+						o := vmOutcome(&i)
+						return "exception: " + o.Class + "/" + o.Kind
+					}
+					d, i := res.ReturnValue.Display()
+					if i != nil {
+						return "undisplayable"
+					}
+					return d
+				}()
+				out = append(out, fmt.Sprintf("%strigger %s %s %s cb=%s", head, it.TriggerConnective, it.TriggerSource, r, it.CallbackFnIdent))
+			default:
+				out = append(out, head+fmt.Sprintf("%T", item))
+			}
+		}
+	}
+	sort.Strings(out)
+	return out
 }
 
 func invokeVM(vm *hsruntime.VM, compiled compiler.CompileOutput, rec *Recorder, inv sb.Invocation) (out sb.InvResult) {
